@@ -204,6 +204,40 @@ func GenEC(c elliptic.Curve, r *vrand.Rand) *ecdsa.PrivateKey {
 	return &ecdsa.PrivateKey{PublicKey: ecdsa.PublicKey{Curve: c, X: x, Y: y}, D: d}
 }
 
+// SearchEC generates keys from r until the variant's condition holds: "a"/"b" = X, Y and D all
+// full-width; "lzx"/"lzy"/"lzd" = that member has a leading zero byte at the coordinate width
+// (P-521: at most 64 significant bytes).  Returns the key and the number of keys generated.
+func SearchEC(curve, variant string, r *vrand.Rand) (*ecdsa.PrivateKey, int) {
+	c := Curve(curve)
+	w := CoordSize(c)
+	lz := func(v *big.Int) bool {
+		if w == 66 {
+			return len(v.Bytes()) <= 64
+		}
+		return len(v.Bytes()) < w
+	}
+	for tries := 1; ; tries++ {
+		k := GenEC(c, r)
+		ok := false
+		switch variant {
+		case "lzx":
+			ok = lz(k.X)
+		case "lzy":
+			ok = lz(k.Y)
+		case "lzd":
+			ok = lz(k.D)
+		default:
+			ok = len(k.X.Bytes()) == w && len(k.Y.Bytes()) == w && len(k.D.Bytes()) == w
+		}
+		if ok {
+			return k, tries
+		}
+	}
+}
+
+// ECVariants are the EC key variants kept per curve.
+var ECVariants = []string{"a", "b", "lzx", "lzy", "lzd"}
+
 func genPrime(r *vrand.Rand, bits int) *big.Int {
 	for {
 		b := r.Bytes(bits / 8)
